@@ -279,7 +279,8 @@ func (r *DeviceAuthorizationState) GetAMR() []string {
 
 func (r *DeviceAuthorizationState) GetAudience() []string {
 	if !slices.Contains(r.Audience, r.ClientID) {
-		r.Audience = append(r.Audience, r.ClientID)
+		// return a new slice: the state is owned by the storage and may be shared between requests
+		return append(slices.Clone(r.Audience), r.ClientID)
 	}
 	return r.Audience
 }
